@@ -251,6 +251,20 @@ impl Shared {
             Shared::HV(c) => c.with_label_values(&tuple(t)).observe(hv),
         }
     }
+    /// a handle to the shared child of tuple t (vector kinds), read later as (sum, count)
+    fn child(&self, t: usize) -> Option<Box<dyn Fn() -> (f64, u64) + Send>> {
+        match self {
+            Shared::CV(c) => {
+                let h = c.with_label_values(&tuple(t));
+                Some(Box::new(move || (h.get(), 0)))
+            }
+            Shared::HV(c) => {
+                let h = c.with_label_values(&tuple(t));
+                Some(Box::new(move || (h.get_sample_sum(), h.get_sample_count())))
+            }
+            _ => None,
+        }
+    }
     /// value per tuple ("" for scalar kinds)
     fn read(&self) -> BTreeMap<String, RV> {
         let mfs = match self {
@@ -352,7 +366,9 @@ impl Loc {
 enum LRes {
     None,
     Got(f64, Option<u64>),
-    Removed(bool),
+    /// (removal accepted, value read afterwards through a handle to the shared child taken before the
+    /// removal: sum, count)
+    Removed(bool, Option<(f64, u64)>),
     Read(BTreeMap<String, RV>),
 }
 
@@ -373,6 +389,8 @@ fn execute(plan: &LocalPlan, mode: Mode) -> RunOut {
         sim.spawn(&format!("sim{}", t), false, move |ctx| {
             // local handles are !Sync and live on their owner thread
             let mut hs: Vec<Option<Loc>> = vec![Some(shared.local())];
+            // handles to shared children, taken right after a direct update (the child exists then)
+            let mut held: BTreeMap<usize, Box<dyn Fn() -> (f64, u64) + Send>> = BTreeMap::new();
             for (i, op) in ops.iter().enumerate() {
                 let id = op_id(t, i);
                 ctx.invoke(id);
@@ -415,7 +433,10 @@ fn execute(plan: &LocalPlan, mode: Mode) -> RunOut {
                         LRes::None
                     }
                     LOp::Remove { h, t } => match hs.get_mut(*h) {
-                        Some(Some(l)) => LRes::Removed(l.remove(*t)),
+                        Some(Some(l)) => {
+                            let ok = l.remove(*t);
+                            LRes::Removed(ok, held.remove(t).map(|f| f()))
+                        }
                         _ => LRes::None,
                     },
                     LOp::LocalGet { h, t } => match hs.get_mut(*h) {
@@ -427,6 +448,9 @@ fn execute(plan: &LocalPlan, mode: Mode) -> RunOut {
                     },
                     LOp::Direct { bit, t } => {
                         shared.direct(1u64 << bit, *t, val(*bit, signed));
+                        if let Some(f) = shared.child(*t) {
+                            held.insert(*t, f);
+                        }
                         LRes::None
                     }
                     LOp::Read => LRes::Read(shared.read()),
@@ -481,6 +505,8 @@ fn execute(plan: &LocalPlan, mode: Mode) -> RunOut {
         let mut pend: Vec<Option<BTreeMap<usize, u64>>> = vec![Some(BTreeMap::new())];
         // which handles hold a binding to a child that has been removed from the vector
         let mut stale: Vec<BTreeMap<usize, bool>> = vec![BTreeMap::new()];
+        // tuples for which the thread holds a handle to the CURRENT shared child (taken at a direct update)
+        let mut held_valid: BTreeMap<usize, bool> = BTreeMap::new();
         for (i, op) in ops.iter().enumerate() {
             let id = op_id(t, i);
             let key = |t: usize| if is_vec { t } else { 0 };
@@ -542,14 +568,25 @@ fn execute(plan: &LocalPlan, mode: Mode) -> RunOut {
                     if let Some(Some(p)) = pend.get_mut(*h) {
                         // the local entry is dropped (a local histogram flushes into the child that is
                         // about to be removed), then the child is removed from the shared vector
-                        p.remove(t);
-                        stale[*h].remove(t);
-                        let was = shared_m.remove(t).is_some();
-                        if let Some(Ok(LRes::Removed(ok))) = res_of(id) {
+                        let dropped = p.remove(t).unwrap_or(0);
+                        let was_stale = stale[*h].remove(t).unwrap_or(false);
+                        let before = shared_m.remove(t);
+                        let was = before.is_some();
+                        if let Some(Ok(LRes::Removed(ok, detached))) = res_of(id) {
                             if ok != was {
                                 out.violations.push(Violation::new("C12/remove", "C12/remove", format!("remove_label_values op {} returned {} but the shared vector {} a child for that tuple", id, ok, if was { "had" } else { "had no" })));
                             }
+                            // a handle to the shared child taken before the removal still shows what the child
+                            // held, including the local histogram's pending batch (dropped = flushed)
+                            if let (Some((sum, cnt)), Some(b), true) = (detached, before, held_valid.remove(t).unwrap_or(false)) {
+                                let bits = if is_hist && !was_stale { b | dropped } else { b };
+                                let want_sum = if is_hist { sum_of(bits, plan.signed) } else { bits as f64 };
+                                if sum != want_sum || (is_hist && cnt != bits.count_ones() as u64) {
+                                    out.violations.push(Violation::new("C12/handover", "C12/handover:removed-child", format!("remove_label_values op {}: a handle to the removed child reads {} (count {}) but the child had received {:#x} and the dropped local entry held {:#x}", id, sum, cnt, b, dropped)));
+                                }
+                            }
                         }
+                        held_valid.remove(t);
                         // other handles of this thread that cached the child now point to a detached one
                         for (j, s) in stale.iter_mut().enumerate() {
                             if j != *h {
@@ -580,6 +617,9 @@ fn execute(plan: &LocalPlan, mode: Mode) -> RunOut {
                 }
                 LOp::Direct { bit, t } => {
                     *shared_m.entry(key(*t)).or_default() |= 1u64 << bit;
+                    if is_vec {
+                        held_valid.insert(*t, true);
+                    }
                 }
                 LOp::Read => {
                     if single {
